@@ -52,12 +52,12 @@ def diag_fields(e):
 
 
 def sat(pc, *extra):
-    s = z3.Solver(); s.set('timeout', 30000)
-    s.add(*pc); s.add(*extra)
-    return s.check()
+    import zutil
+    return zutil.check(list(pc) + list(extra), 30000)[0]
 
 
 def imports_task(cfg):
+    tmir.DEADLINE[0] = time.time() + 900      # wall-clock cap per configuration (inconclusive when exceeded)
     n, nres, ndef = cfg
     S = _S
     try:
@@ -126,6 +126,7 @@ def imports_task(cfg):
 
 
 def declared_task(cfg):
+    tmir.DEADLINE[0] = time.time() + 900      # wall-clock cap per configuration (inconclusive when exceeded)
     n, nimp, nres = cfg
     S = _S
     try:
